@@ -104,6 +104,7 @@ def _norm_msg(e):
 
 
 PERM_SEED = 0
+_CONFIGS = {}
 TTY = False
 _CALLS = [0]
 
@@ -122,7 +123,16 @@ def op_convert(op):
     _CALLS[0] += 1
     try:
         if sc is not None:
-            o["compiler_configs"] = CompilerConfigs(string_configs=StringConfigs(strname_to_size=sc))
+            # a long-lived host often keeps ONE config object and passes it to many calls: half
+            # of the calls with an equal mapping reuse the object this process built first
+            import random
+            ck = tuple(sorted(sc.items()))
+            reuse = random.Random("%d/%d/cfg" % (PERM_SEED, _CALLS[0])).random() < 0.5
+            if reuse and ck in _CONFIGS:
+                o["compiler_configs"] = _CONFIGS[ck]
+            else:
+                o["compiler_configs"] = CompilerConfigs(string_configs=StringConfigs(strname_to_size=sc))
+                _CONFIGS.setdefault(ck, o["compiler_configs"])
         out = convert(op["text"], **o)
     except Exception as e:
         return {"r": "REFUSED:%s:%s" % (type(e).__name__, _sha(_norm_msg(e))[:16]),
